@@ -116,14 +116,14 @@ theorem createNextTable_ok (k : Kind) (s : St) (p4 : Word) (r : List Nat) (tbl :
         simp only [St.alloc, St.rd, hall]
         have hfl : (if k.recursive = true then Pte.PRESENT ||| Pte.WRITABLE ||| pflags else pflags) = linkFl k pflags := rfl
         simp only [hfl, b4, Bool.not_true, Bool.false_eq_true, if_false, hnt]
-        have hmem : ((St.wr { mem := s.mem, allocs := rest, log := s.log ++ [Ev.rd tbl i] ++ [Ev.alloc (some f)] } tbl i
-            (Pte.mk f (linkFl k pflags))).zeroTable f).mem = linked s.mem tbl i f (linkFl k pflags) := by
-          rw [St.zeroTable_mem]; rfl
+        have hmem : ∀ (s0 : St), s0.mem = s.mem →
+            ((St.wr s0 tbl i (Pte.mk f (linkFl k pflags))).zeroTable f).mem = linked s.mem tbl i f (linkFl k pflags) := by
+          intro s0 h0; rw [St.zeroTable_mem, St.wr_mem, h0]; rfl
         have T := tblAt_linked s.mem p4 hinv r tbl i f (linkFl k pflags) hr hrl hri hi hzero hfresh hlf
         refine ⟨⟨?_, ?_, ?_⟩, ?_⟩
-        · rw [hmem]; exact Inv_linked s.mem p4 hinv r tbl i f _ hr hrl hri hi hzero hfresh hlf
-        · intro va; rw [hmem, walk_linked s.mem p4 hinv r tbl i f _ hr hrl hri hi hzero hfresh hlf va]
-        · rw [hmem]
+        · rw [hmem ⟨s.mem, rest, _⟩ rfl]; exact Inv_linked s.mem p4 hinv r tbl i f _ hr hrl hri hi hzero hfresh hlf
+        · intro va; rw [hmem ⟨s.mem, rest, _⟩ rfl, walk_linked s.mem p4 hinv r tbl i f _ hr hrl hri hi hzero hfresh hlf va]
+        · rw [hmem ⟨s.mem, rest, _⟩ rfl]
           simp only [St.zeroTable_allocs, St.wr_allocs]
           apply AllocsOK_mono s.mem _ p4 f _ rest hrest hdist
           intro q g hq hqi hg
@@ -133,7 +133,7 @@ theorem createNextTable_ok (k : Kind) (s : St) (p4 : Word) (r : List Nat) (tbl :
           · split at hg
             · cases hg
             · left; exact hg
-        · rw [hmem, T (r ++ [i]) (by simp; omega)
+        · rw [hmem ⟨s.mem, rest, _⟩ rfl, T (r ++ [i]) (by simp; omega)
             (IdxOK_append.2 ⟨hri, fun j hj => by simp at hj; rw [hj]; exact hi⟩)]
           simp
   · -- existing entry
